@@ -22,8 +22,14 @@ SHARDS = {"quick": 1, "thorough": 16}
 MIN_DISTINCT = {"quick": 400, "thorough": 10000}
 
 EXCS = [ValueError, KeyError, IndexError, LookupError, ArithmeticError, ZeroDivisionError, TypeError, RuntimeError,
-        AttributeError, OSError, AssertionError, NotImplementedError, UnicodeError, StopIteration, EOFError, TimeoutError]
-CATCH = [LookupError, ArithmeticError, ValueError, KeyError, Exception, OSError, RuntimeError, TypeError]
+        AttributeError, OSError, AssertionError, NotImplementedError, UnicodeError, StopIteration, EOFError, TimeoutError,
+        GeneratorExit, BaseException]      # the last two: exceptions that are not Exception subclasses travel as well
+CATCH = [LookupError, ArithmeticError, ValueError, KeyError, Exception, OSError, RuntimeError, TypeError, BaseException, GeneratorExit]
+
+
+def _program_exception(e):
+    """exceptions the generated programs raise (everything else - harness watchdogs, interrupts - passes through)"""
+    return not isinstance(e, (vnet.Stalled, KeyboardInterrupt, SystemExit))
 REFSHAPES = ("list", "dict", "obj", "callable")      # shapes that may be passed on
 SHAPES = ["scalar", "scalar", "tuple_mixed", "list", "dict", "obj", "callable", "passon", "tuple_plain", "nested_ref_tuple", "cls", "boundmethod"]
 
@@ -189,7 +195,9 @@ class Worker(object):
                 else:
                     r = self.other.run(cid, *cargs, **ckw)
                 acc.append(("ok", summ_result(r, child)))
-            except Exception as e:
+            except BaseException as e:
+                if not _program_exception(e):
+                    raise
                 c = node["catches"]
                 if c is not None and isinstance(e, CATCH[c]):
                     acc.append(("caught", builtin_name(e), rc.fingerprint(tuple(e.args))))
@@ -262,7 +270,9 @@ def outcome(thunk, w):
     try:
         r = thunk()
         return ("ok", summ_result(r, w.nodes[0]))
-    except Exception as e:
+    except BaseException as e:
+        if not _program_exception(e):
+            raise
         return ("exc", builtin_name(e), rc.fingerprint(tuple(e.args)))
 
 
